@@ -191,6 +191,7 @@ func (p *parkClient) park() {
 		select {}
 	}
 }
+
 // Every slice is handed out as a fresh copy: the deps.dev Maven resolver sorts and reverses the slice it gets from
 // Versions() in place (maven.findMatch) while the concurrent patch attempts of ComputePatches read the same
 // slice (override.getVersionsGreater); resolve.LocalClient returns its internal slices and even sorts them in place
